@@ -178,8 +178,14 @@ def lexer_next(F, res):
            bool(somes) and bool(fwd), where=nx.loc(), how="gates: %s" % [FL.gate_summary(g) for g in gs])
     nones = [b for b in nx.reachable() if any(s["k"] == "assign" and s["place"]["l"] == 0 and FL.is_variant_agg(s["rv"], "option::Option", "None")
                                               for s in nx.blocks[b]["stmts"])]
-    res.ob("L2", "no-early-none", "it never returns None on its own (only by propagating the inner None with `?`)",
-           not nones, where=nx.loc(), how="explicit None returns: %d" % len(nones))
+    # an explicit `return None` is the same thing when it sits on the None edge of the inner next() (`let Some(k) = .. else { return None }`)
+    own = []
+    for b in nones:
+        gated = [g for g in FL.gates(F, nx, [b], d) if "logos" in (g.get("callee") or "") and g["allowed"] in (["None"], ["Break"])]
+        if not gated:
+            own.append(b)
+    res.ob("L2", "no-early-none", "it never returns None on its own (only by propagating the inner None, with `?` or on the None edge of the inner call)",
+           not own, where=nx.loc(), how="explicit None returns: %d, of them not on the inner call's None edge: %d" % (len(nones), len(own)))
     # LexToken { kind: inner.next(), range: TextRange::new(try_from(span.start), try_from(span.end)) }
     ok_kind = ok_range = False
     for b, i, s in nx.stmts():
